@@ -26,10 +26,26 @@ CHECKS = {
         technique="who-may-write / provenance over SSA (cursor vs. persisted job kinds read from newCheckpoint's own code), single-owner call-site enumeration, gate and barrier walks (stop ordering, job-created-implies-run)",
         text="Level 'other', structural part only: decides that every job kind created while the catch-up cursor advances is kept covered by the checkpoint writer (kinds are read from the checkpoint code, not frozen), that the persisted resume range is copied unchanged, that coordinator state is written only from the coordinator goroutine's functions, that the final checkpoint is taken after cancel and a successful wait, and that a created job is always run. The invariant 'every height is in exactly one set' over interleavings and crash points is not decided.",
         design="DESIGN.md §3 C04"),
+    "C06": dict(
+        technique="escape analysis of decoded responses over SSA closures (verified-before-escape with kill on the failure edge) + definite-assignment of decoder receivers + status-table agreement + panic reachability over the call graph + acquire/release pairing",
+        text="Level 'other': decides that a response decoded from a peer can reach a return of the shrex getter only across the verifying executeRequest's success edge or after being overwritten; that bitswap containers are written only behind id equality and verification; that every pointer-receiver decoder fully overwrites its receiver on every success path (no state of a rejected response survives a retry); that the client handles every status the server writes and not-found is reported as not-found through all layers; that no explicit panic is reachable from the network getters (call paths printed); that store getters close accessors and the cascade discards failed getters' values. Retry dynamics and deadlines are not decided.",
+        design="DESIGN.md §3 C06"),
+    "C09": dict(
+        technique="acquire/release pairing and gate walks on the request handler's SSA + registry/table agreement + validation-wrapper coverage by interface method enumeration + panic reachability",
+        text="Level 'other': decides that the server's handler closes the accessor and releases exactly the reserved memory on every path, that registry, request implementations and per-protocol limits agree, that every status written has a case, that handlers are registered under the recovery middleware, that the store is reached only after a complete read and Validate, and that every index-bearing accessor method is overridden by the bounds-checking wrapper with a size-dependent rejecting check. Equality of replies with the requested data is not decided.",
+        design="DESIGN.md §3 C09"),
+    "C10": dict(
+        technique="gate walks with dataflow identity (stored value == verified value) on every bitswap.Block implementation + constant-table agreement between registry and CID encoders + atomic-registry who-may-call",
+        text="Level 'other': decides for every type implementing bitswap.Block that its Container is stored only across ID equality with the decoded id and a successful verification (against the closure's root) of the very value stored, and by no other writer; that the hasher's digest is set only across UnmarshalFn success and is the CID's id; that CIDs are validated against the registered spec; that the shared registry is written atomically; that registry and CID() constants, id sizes and builders agree and codes are distinct; that the serving side converts only populated blocks. CID/ID bijection on values is not decided.",
+        design="DESIGN.md §3 C10"),
     "C13": dict(
         technique="barrier/gate walks on SSA (result-or-own-cancellation, limit guards, done-check after mutation) + map read-before-delete ordering + dataflow provenance of retry attempts",
         text="Level 'other', four structural conditions: a worker returns without reporting only behind a test of its own context; every runWorker call is guarded by the configured concurrency predicates (shape checked) and created jobs are run; every state mutation that can complete catch-up is followed by checkDone before the coordinator blocks; retry attempts are read before cleanup, derive from the previous attempt and only increment. Liveness under fairness and statistics-vs-reality are not decided.",
         design="DESIGN.md §3 C13"),
+    "C17": dict(
+        technique="lock-order graph with cycle detection (held sets over the CFG, calls and VTA-resolved function values) + guarded-by obligations propagated to root callers + gate walks on status transitions and offers",
+        text="Level 'other': decides that the lock-order graph of the peers package has no cycle (through calls and callbacks), that pool/queue/manager state is accessed only under its mutex on every call path, that a peer is offered only if active, promoted only behind a validated hash, added or offered only behind the blacklist/unreachable check for that same peer, re-activated only from cool-down/absent/removed, and that the active counter changes only behind the matching status test. Wake-ups and timing are not decided.",
+        design="DESIGN.md §3 C17"),
     "C18": dict(
         technique="encoder/decoder layout extraction from the typed syntax tree + constant evaluation + interval bound on narrowing conversions + gate walk + panic reachability over the call graph",
         text="Level 'other': decides, for every ID codec pair, that encoder and decoder agree field by field on order, width and offsets and on the Size constant; that no uintN() conversion in an encoder can truncate a field at the protocol's maximum square size; that decoders return values only behind the exact-length test and a successful Validate; that no explicit panic is reachable from any decoder entry point; that proto converters nil-check. Round-trip equality on values is not decided.",
